@@ -54,6 +54,8 @@ def check(ctx, which=None):
         fam = [{"name": "F%02d" % i, "shape": shape, "k": i, "origin": "%s%d" % (shape, i)} for i in range(1, nfam + 1)]
         extra = [{"name": "Keep1", "shape": "nested", "k": 1, "origin": "keep1"}]
         pairs.append((fam + extra, [dict(f, name="R" + f["name"][1:]) for f in fam] + extra))
+    if which == "C19":
+        pairs += near_threshold_pairs(ctx, rng, thorough)
     evs, raws, plan = dl.run_pairs(ctx, pairs, "pairs")
     ctx.notes["file_pairs"] = len(pairs)
     ctx.notes["functions_old_total"] = sum(len(e["old"]) for e in evs)
@@ -93,7 +95,7 @@ def check(ctx, which=None):
     if which == "C09":
         c["summary"]["total"] += 1000
     else:
-        c["sims"] = [{"a": "x", "b": "y", "ab": 5, "ba": 6, "one": False, "eq": False, "same": False}]
+        c["sims"] = [{"a": "x", "b": "y", "ab": 5, "ba": 6, "one": False, "eq": False, "same": False, "ge": False}]
     cp = os.path.join(ctx.scratch, "canary.ndjson")
     vlib.write_ndjson(cp, [c])
     okc, _, _, _ = ctx.validate_trace(dl.DIFF_SPEC, mod, cfg, cp)
@@ -105,6 +107,38 @@ def check(ctx, which=None):
         "function names are unique within a generated file (as the Go compiler requires per package)",
         "the report's `modified` counter includes renamed entries (the code's definition, adopted by the contract)",
     ]
+
+
+def near_threshold_pairs(ctx, rng, thorough):
+    """Unrelated functions whose MEASURED structural similarity lies just below / just above the rename
+    threshold, in one candidate bucket: found by measuring all pairs of a pool of feature-described
+    functions with the real TopologySimilarity.  Just below: they must not be reported as a rename."""
+    import gogen
+    npool = 260 if thorough else 140
+    ks = rng.sample(range(len(gogen.FEATS)), npool)
+    old = [{"name": "P%03d" % i, "shape": "feat", "k": k, "origin": "pool%d" % i} for i, k in enumerate(ks)]
+    new = [dict(f, name="Q" + f["name"][1:]) for f in old]
+    evs, raws, plan = dl.run_pairs(ctx, [(old, new)], "simpool", allsims=True)
+    cand = []
+    for x in raws[0].get("sims") or []:
+        if x.get("missing") or x["a"][1:] == x["b"][1:] or x["fa"] != x["fb"]:
+            continue
+        v = float(x["ab"])
+        if 0.5 <= v < 0.7:
+            cand.append((abs(v - 0.6), v, x["a"], x["b"]))
+    cand.sort()
+    below = [c for c in cand if c[1] < 0.6][: (40 if thorough else 14)]
+    above = [c for c in cand if c[1] >= 0.6][: (16 if thorough else 6)]
+    ctx.notes["near_threshold"] = {"pool": npool, "same_bucket_pairs_in_0.5_0.7": len(cand),
+                                   "closest_below": [round(c[1], 6) for c in below[:5]],
+                                   "closest_above": [round(c[1], 6) for c in above[:5]]}
+    byname = {f["name"]: f for f in old}
+    out = []
+    keep = {"name": "Keep1", "shape": "nested", "k": 1, "origin": "keep1"}
+    for _, v, a, b in below + above:
+        fa, fb = byname[a], byname["P" + b[1:]]
+        out.append(([dict(fa, name="Old1", origin="nt_a"), dict(keep)], [dict(fb, name="New1", origin="nt_b"), dict(keep)]))
+    return out
 
 
 def classify(e, which):
@@ -135,6 +169,8 @@ def classify(e, which):
                     if not [x for x in ents if x["status"] == "renamed" and x["old"] == o["name"] and bn.get(x["new"]) == o["body"]]:
                         kinds.append("rename-missed")
         for x in e["sims"]:
+            if not x.get("ge", True) and [y for y in ents if y["status"] == "renamed" and y["old"] == x["a"] and y["new"] == x["b"]]:
+                kinds.append("paired-below-threshold")
             if x["ab"] != x["ba"] or (x["same"] and not x["one"]) or not (0 <= x["ab"] <= 1000000):
                 kinds.append("similarity")
     return sorted(set(kinds)) or ["other"]
